@@ -173,9 +173,12 @@ class Integrate:
         integ_array = integ_array_func(nnodes)
         knots = curve.knotvector.knots
         integrals = []
-        for start, end in zip(knots[:-1], knots[1:]):
+        # Each piece is closed on its own span: the end of a span takes the
+        # value from the left, also where the curve jumps
+        pieces = curve.split(knots)
+        for piece, start, end in zip(pieces, knots[:-1], knots[1:]):
             nodes = tuple(start + (end - start) * node for node in nodes_0to1)
-            curve_vals = tuple(curve.eval(node) for node in nodes)
+            curve_vals = tuple(piece.eval(node) for node in nodes)
             function_vals = tuple(function(node) for node in nodes)
             new_integral = sum(
                 map(np.prod, zip(integ_array, function_vals, curve_vals))
@@ -277,9 +280,10 @@ class Integrate:
         integ_array = integ_array_func(nnodes)
         knots = curve.knotvector.knots
         integrals = []
-        for start, end in zip(knots[:-1], knots[1:]):
+        pieces = curve.split(knots)
+        for piece, start, end in zip(pieces, knots[:-1], knots[1:]):
             nodes = tuple(start + (end - start) * node for node in nodes_0to1)
-            curve_vals = tuple(curve.eval(node) for node in nodes)
+            curve_vals = tuple(piece.eval(node) for node in nodes)
             abscurve_vals = tuple(np.sqrt(val @ val) for val in curve_vals)
             function_vals = tuple(function(node) for node in nodes)
             new_integral = sum(
